@@ -17,13 +17,25 @@ theorem cbv_eq {α : Type} (n : Nat) (k : Nat → α) : cbv n k = k n := by
 /-- closes `source function = model function` after both sides have been unfolded, whatever the shape of the control
     flow on the source side: every `if`/`match` of either side is split and each leaf is closed by reflexivity or by the
     contradiction between the branch conditions -/
-macro "tie_leaves" : tactic => `(tactic|
+macro "tie_leaves_plain" : tactic => `(tactic|
   (try simp only [cbv_eq, decide_eq_true_eq]
-   -- binary64 multiplication and addition are commutative bit for bit (Proofs/F64Round.lean): `6.42 * x` for `x * 6.42` is no change
-   try simp only [F64.mul_comm', F64.add_comm']
    try simp only [V3.c642, V3.c752, V3.c0029, V3.c325, V3.c002, V3.c822, V3.c108, V3.c0915, V3.c09731,
      V2.c1041, V2.c20, V2.c1176, V2.c06, V2.c04, V2.c15,
      F64.one, F64.ten, F64.hundred, F64.c1e4, F64.c1e5, F64.four, F64.seven, F64.nine, F64.zero]
+   repeat' split
+   all_goals first
+     | rfl
+     | (simp_all; done)
+     | (simp_all <;> rfl)))
+
+/-- the same after both sides have been brought into a normal form for the commutativity of binary64 multiplication and addition
+    (`Proofs/F64Round.lean`: `mul a b = mul b a`, `add a b = add b a`, bit for bit): `6.42 * x` written for `x * 6.42` is no change -/
+macro "tie_leaves_comm" : tactic => `(tactic|
+  (try simp only [cbv_eq, decide_eq_true_eq]
+   try simp only [V3.c642, V3.c752, V3.c0029, V3.c325, V3.c002, V3.c822, V3.c108, V3.c0915, V3.c09731,
+     V2.c1041, V2.c20, V2.c1176, V2.c06, V2.c04, V2.c15,
+     F64.one, F64.ten, F64.hundred, F64.c1e4, F64.c1e5, F64.four, F64.seven, F64.nine, F64.zero]
+   try simp only [F64.mul_comm', F64.add_comm']
    repeat' split
    all_goals first
      | rfl
@@ -31,6 +43,8 @@ macro "tie_leaves" : tactic => `(tactic|
      | (simp_all; done)
      | (simp_all only [F64.mul_comm', F64.add_comm']; done)
      | (simp_all <;> rfl)))
+
+macro "tie_leaves" : tactic => `(tactic| first | tie_leaves_plain | tie_leaves_comm)
 
 /-! ### v3 -/
 section v3
